@@ -11,14 +11,6 @@ MCDirs == {-1, 0, 1}
 MCRefines == {0, 1, 2, 3}
 MCMaxHits == {0, 1, 2}
 
-\* time grids of the binding: increment between samples i and i+1 (i >= 1)
-GridKinds == {"uni", "alt", "pow"}
-Dt(kind, i) == CASE kind = "uni" -> 1
-                 [] kind = "alt" -> IF i % 2 = 1 THEN 1 ELSE 2
-                 [] kind = "pow" -> IF i % 3 = 1 THEN 2 ELSE IF i % 3 = 2 THEN 4 ELSE 1
-RECURSIVE Time(_, _)
-Time(kind, i) == IF i = 1 THEN 0 ELSE Time(kind, i - 1) + Dt(kind, i - 1)
-
 \* emitted once (empty pattern): the configuration sets the harness crosses every pattern with
 EmitHeader ==
     (Len(g) = 0) =>
